@@ -3,6 +3,7 @@
 //! evaluates each property directly on the implementation (failing-input search).
 mod c07;
 mod c10;
+mod c14;
 mod enc;
 mod out;
 mod rng;
@@ -51,6 +52,7 @@ fn main() {
     match prop.as_str() {
         "C07" => c07::run(&a),
         "C10" => c10::run(&a),
+        "C14" => c14::run(&a),
         _ => {
             eprintln!("no harness for {}", prop);
             std::process::exit(2);
